@@ -1595,13 +1595,19 @@ where
 
                         // In the middle of COPY FROM STDIN the server ignores Sync (and Flush). If the Sync
                         // is all we have for it, nothing would ever answer and we would wait on the
-                        // server for ever, keeping it away from everybody else.
+                        // server for ever, keeping it away from everybody else: pass it on, behind the
+                        // copy data buffered before it, and don't wait for anything.
                         if server.in_copy_mode() && self.buffer.len() == buffered_before {
                             if !self.response_message_queue_buffer.is_empty() {
                                 write_all_flush(&mut self.write, &self.response_message_queue_buffer)
                                     .await?;
                                 self.response_message_queue_buffer.clear();
                             }
+
+                            self.buffer.put(&message[..]);
+                            self.send_server_message(server, &self.buffer, &address, &pool)
+                                .await?;
+                            self.buffer.clear();
                             continue;
                         }
 
